@@ -307,10 +307,12 @@ impl<B: StarkField> AirContext<B> {
         let trace_length = self.trace_len();
         let transition_divisior_degree = trace_length - self.num_transition_exemptions();
 
-        // we use the identity: ceil(a/b) = (a + b - 1)/b
+        // a polynomial of degree d has d + 1 coefficients and thus needs ceil((d + 1) / b)
+        // columns of length b; we use the identity: ceil((d + 1)/b) = (d + b)/b. Note that when
+        // d is a multiple of b (which happens e.g., for base degree 2 with 2 exemption points),
+        // ceil(d / b) columns would be one too few to hold the leading coefficient.
         let num_constraint_col =
-            (highest_constraint_degree - transition_divisior_degree + trace_length - 1)
-                / trace_length;
+            (highest_constraint_degree - transition_divisior_degree + trace_length) / trace_length;
 
         cmp::max(num_constraint_col, 1)
     }
